@@ -169,6 +169,30 @@ int main(int argc, char **argv)
     const int TEAMS[] = {1, 2, 3, 4, 7, 16, 33};
     const int TEAMS_LIBGOMP[] = {1, 2, 3, 4, 8, 16, 33};
     uint64_t delays = 0;
+    // cold start: this process's very first use of the library is a full team (whatever is prepared lazily on first use is then
+    // prepared inside the parallel region); which entry point goes first rotates with the shard index
+    {
+        std::vector<Work> cands;
+        for (int kind = 0; kind <= 10; kind++)
+        {
+            const Work *best = nullptr;
+            for (const Work &w : ws)
+                if (w.kind == kind && (kind <= 2 ? (w.d == 6 && w.ncols >= 3) : (w.rows == 64 && w.cols == 9 && w.dim == 1))) { best = &w; break; }
+            if (best) cands.push_back(*best);
+        }
+        const Work &w = cands[(args.shard + args.seed) % cands.size()];
+        std::vector<uint64_t> first, ref;
+        if (verif_omp_set_mode) verif_omp_set_mode(mode == "threads" ? 0 : 1, vf::mix64(args.seed, 0xC01D + args.shard) | 1, 0);
+        if (verif_omp_set_delay) verif_omp_set_delay(0);
+        execute(w, 8, first, args.seed);
+        if (verif_omp_set_mode) verif_omp_set_mode(mode == "threads" ? 0 : 1, 0, 0);
+        execute(w, 1, ref, args.seed);
+        rep.evaluations++;
+        if (first.size() != ref.size() || memcmp(first.data(), ref.data(), ref.size() * 8) != 0)
+            rep.violation("C12:" + mode + ":" + w.name() + ":first-use-in-the-process-by-a-team:output-differs-from-single-thread", J().raw("workload", w.json()).i("thread_argument", 8).done());
+        rep.cls("coldstart:first_library_use_is_a_team_of_8");
+        rep.cls("coldstart:" + w.name());
+    }
     for (uint64_t i = 0; i < ws.size(); i++)
     {
         if ((int)(vf::mix64(i, 11) % args.nshards) != args.shard) continue;
